@@ -59,6 +59,10 @@ func (s *StateDBWrapper) Finish() {
 	for addr, _ := range s.accessedObjAddrs {
 		amt := uint256.MustFromBig(s.StateDB.GetBalance(addr))
 		nonce := s.StateDB.GetNonce(addr)
+		if s.StateDB.HasSuicided(addr) {
+			// the account is deleted when the transaction is finalised: its nonce does not survive
+			nonce = 0
+		}
 
 		acct := s.acctHandler.FindOrNewAccount(addr[:], s.exec)
 		acct.SetBalance(amt)
